@@ -250,7 +250,10 @@ impl<'a> System<'a> for LogSys {
 /// forms, tuples, the Expect forms, derived bundles incl. a generic one), so that what the scheduler is told (the type's
 /// reads() / writes()) and what fetch really borrows are both shred's.  model::TYPED lists what each really borrows.
 #[derive(shred::SystemData)]
-pub struct Timed<'a, D> {
+pub struct Timed<'a, D>
+where
+    D: shred::SystemData<'a>,
+{
     pub clock: Read<'a, R1>,
     pub data: D,
 }
